@@ -380,7 +380,10 @@ def dropStreamRef (s : Streams) (id : Nat) : Streams :=
       let s := s.modStream id fun st => { st with pendingPushPromises := [] }
       let s := ppp.foldl (fun s promise =>
         let s := s.modStream promise fun st => { st with isPendingAccept := false }
-        (s.transition promise fun s => (s.maybeCancel promise, ())).1) s
+        (s.transition promise fun s =>
+          let s := s.maybeCancel promise
+          -- nobody is going to read what the peer has already sent on the promised stream either
+          (if (s.stream promise).refCount == 0 then s.releaseClosedCapacity promise else s, ())).1) s
       (s, ())
     else (s, ())).1
 
